@@ -318,7 +318,7 @@ func c16History(r *kit.Result, rng *kit.Rand, id string, nsteps int, prologue in
 func TestVerif_C16_Histories(t *testing.T) {
 	t.Parallel() // the three monitors share nothing but the read-only scenario definitions
 	seed := kit.Seed(16)
-	r := kit.NewResult(t, "c16-histories", seed, "generated histories of issue / forge (bring-your-own, also long expired) / revoke through every route (serial in three spellings, certificate, with-key, lease, issuer) / re-revoke / rotate / rotate-delta / tidy / config flips (auto-rebuild+delta, disable, ocsp_disable, allow-expired) / issuer remove, re-import, add, set-default / restart / periodic tick over 2-5 issuers (distinct roots, optionally a re-issued root sharing subject and key, optionally an intermediate whose own CA certificate is revocable); after every step the oracle reads cert/<serial>, OCSP, certs/revoked, every issuer's complete CRL (parsed and verified with crypto/x509) and the legacy CRL endpoints and compares them with the ledger of revocations the API reported successful; an evaluation is one step+oracle pass; a history is non-trivial when it ends with >= 3 ledger entries and ran >= 3 different kinds of non-revocation operations while the ledger was non-empty")
+	r := kit.NewResult(t, "c16-histories", seed, "generated histories of issue / forge (bring-your-own, also long expired) / revoke through every route (serial in three spellings, certificate, with-key, lease, issuer) / re-revoke / rotate / rotate-delta / tidy / writes to config/crl as first-class operations (auto_rebuild on and off with and without enable_delta, delta flips, disable on/off, expiry + grace period + delta interval changes, ocsp_disable, allow-expired; full and partial writes; requests the documentation refuses; leaving auto-rebuild while revocations are unpublished is made likely; one prologue in five is a walk through generated configurations with a revocation and a repeated revocation between writes) / issuer remove, re-import, add, set-default / restart / periodic tick over 2-5 issuers (distinct roots, optionally a re-issued root sharing subject and key, optionally an intermediate whose own CA certificate is revocable); after every step the oracle reads config/crl back, cert/<serial>, OCSP, certs/revoked and the complete CRL of every issuer through every CRL endpoint (issuer/<ref>/crl, /pem, /der, and for the default issuer crl, crl/pem, cert/crl, issuer/default/...; which endpoint is read first rotates; all must serve the same bytes; parsed and verified with crypto/x509; a changed CRL must carry a larger number) and compares them with the ledger of revocations the API reported successful under the configuration in force now: auto-rebuild off and CRL enabled -> every unexpired ledger serial is on the CRL served now; auto-rebuild on -> on every complete CRL built after the report, in particular after a successful crl/rotate; status and OCSP say revoked in every mode; an evaluation is one step+oracle pass; a history is non-trivial when it ends with >= 3 ledger entries and ran >= 3 different kinds of non-revocation operations while the ledger was non-empty")
 	defer r.Write(t)
 	shard, shards := kit.Shard()
 	n := kit.N(50, 4000)
